@@ -534,35 +534,41 @@ def mbOf (m : ModelMeta) (s : ModelSections) : ModelFileBlock :=
   let o1 := encLen s.stack
   let o2 := o1 + encLen s.runtime
   let o3 := o2 + encLen s.v0
-  let o4 := o3 + encLen s.i0
-  let o5 := o4 + encLen s.v1
-  let o6 := o5 + encLen s.i1
-  let o7 := o6 + encLen s.v2
+  let o4 := o3 + encLen s.e0
+  let o5 := o4 + encLen s.i0
+  let o6 := o5 + encLen s.v1
+  let o7 := o6 + encLen s.e1
+  let o8 := o7 + encLen s.i1
+  let o9 := o8 + encLen s.v2
+  let o10 := o9 + encLen s.e2
   let n1 := s.stack.length
   let n2 := n1 + s.runtime.length
   let n3 := n2 + s.v0.length
-  let n4 := n3 + s.i0.length
-  let n5 := n4 + s.v1.length
-  let n6 := n5 + s.i1.length
-  let n7 := n6 + s.v2.length
+  let n4 := n3 + s.e0.length
+  let n5 := n4 + s.i0.length
+  let n6 := n5 + s.v1.length
+  let n7 := n6 + s.e1.length
+  let n8 := n7 + s.i1.length
+  let n9 := n8 + s.v2.length
+  let n10 := n9 + s.e2.length
   { numBlocks := s.all.length.toUInt32, numUsedBlocks := s.all.length.toUInt32, version := m.version
     uncompressedSize := ⟨(conLen s.stack).toUInt32, (conLen s.runtime).toUInt32,
       ⟨(conLen s.v0).toUInt32, (conLen s.v1).toUInt32, (conLen s.v2).toUInt32⟩,
-      ⟨(0 : Nat).toUInt32, (0 : Nat).toUInt32, (0 : Nat).toUInt32⟩,
+      ⟨(conLen s.e0).toUInt32, (conLen s.e1).toUInt32, (conLen s.e2).toUInt32⟩,
       ⟨(conLen s.i0).toUInt32, (conLen s.i1).toUInt32, (conLen s.i2).toUInt32⟩⟩
     compressedSize := ⟨(encLen s.stack).toUInt32, (encLen s.runtime).toUInt32,
       ⟨(encLen s.v0).toUInt32, (encLen s.v1).toUInt32, (encLen s.v2).toUInt32⟩,
-      ⟨(0 : Nat).toUInt32, (0 : Nat).toUInt32, (0 : Nat).toUInt32⟩,
+      ⟨(encLen s.e0).toUInt32, (encLen s.e1).toUInt32, (encLen s.e2).toUInt32⟩,
       ⟨(encLen s.i0).toUInt32, (encLen s.i1).toUInt32, (encLen s.i2).toUInt32⟩⟩
-    offset := ⟨(0 : Nat).toUInt32, o1.toUInt32, ⟨o2.toUInt32, o4.toUInt32, o6.toUInt32⟩,
-      ⟨(0 : Nat).toUInt32, (0 : Nat).toUInt32, (0 : Nat).toUInt32⟩,
-      ⟨o3.toUInt32, o5.toUInt32, o7.toUInt32⟩⟩
-    index := ⟨(0 : Nat).toUInt16, n1.toUInt16, ⟨n2.toUInt16, n4.toUInt16, n6.toUInt16⟩,
-      ⟨(0 : Nat).toUInt16, (0 : Nat).toUInt16, (0 : Nat).toUInt16⟩,
-      ⟨n3.toUInt16, n5.toUInt16, n7.toUInt16⟩⟩
+    offset := ⟨(0 : Nat).toUInt32, o1.toUInt32, ⟨o2.toUInt32, o5.toUInt32, o8.toUInt32⟩,
+      ⟨o3.toUInt32, o6.toUInt32, o9.toUInt32⟩,
+      ⟨o4.toUInt32, o7.toUInt32, o10.toUInt32⟩⟩
+    index := ⟨(0 : Nat).toUInt16, n1.toUInt16, ⟨n2.toUInt16, n5.toUInt16, n8.toUInt16⟩,
+      ⟨n3.toUInt16, n6.toUInt16, n9.toUInt16⟩,
+      ⟨n4.toUInt16, n7.toUInt16, n10.toUInt16⟩⟩
     num := ⟨s.stack.length.toUInt16, s.runtime.length.toUInt16,
       ⟨s.v0.length.toUInt16, s.v1.length.toUInt16, s.v2.length.toUInt16⟩,
-      ⟨(0 : Nat).toUInt16, (0 : Nat).toUInt16, (0 : Nat).toUInt16⟩,
+      ⟨s.e0.length.toUInt16, s.e1.length.toUInt16, s.e2.length.toUInt16⟩,
       ⟨s.i0.length.toUInt16, s.i1.length.toUInt16, s.i2.length.toUInt16⟩⟩
     vertexDeclarationNum := m.vertexDeclarationNum, materialNum := m.materialNum, numLods := m.numLods
     indexBufferStreamingEnabled := m.indexBufferStreaming, edgeGeometryEnabled := m.edgeGeometry }
@@ -656,18 +662,11 @@ theorem writeHeader_eq (m : ModelMeta) (s : ModelSections) :
 
 theorem totalU16_mbOf (m : ModelMeta) (s : ModelSections) (h : s.all.length < 65536) :
     totalU16 (mbOf m s).num = some s.all.length := by
-  obtain ⟨st, rt, v0, i0, v1, i1, v2, i2⟩ := s
+  obtain ⟨st, rt, v0, e0, i0, v1, e1, i1, v2, e2, i2⟩ := s
   simp only [ModelSections.all, List.length_append] at h
-  have z : (0 : Nat).toUInt16.toNat = 0 := rfl
-  simp only [totalU16, mbOf, z, ModelSections.all, List.length_append,
-    toUInt16_toNat st.length (by omega), toUInt16_toNat rt.length (by omega),
-    toUInt16_toNat v0.length (by omega), toUInt16_toNat i0.length (by omega),
-    toUInt16_toNat v1.length (by omega), toUInt16_toNat i1.length (by omega),
-    toUInt16_toNat v2.length (by omega), toUInt16_toNat i2.length (by omega)]
-  have e : st.length + rt.length + v0.length + 0 + i0.length + v1.length + 0 + i1.length + v2.length + 0 +
-      i2.length = st.length + rt.length + v0.length + i0.length + v1.length + i1.length + v2.length +
-      i2.length := by omega
-  rw [e, if_pos h]
+  simp only [totalU16, mbOf, ModelSections.all, List.length_append,
+    toUInt16_toNat st.length (by omega), toUInt16_toNat rt.length (by omega), toUInt16_toNat v0.length (by omega), toUInt16_toNat e0.length (by omega), toUInt16_toNat i0.length (by omega), toUInt16_toNat v1.length (by omega), toUInt16_toNat e1.length (by omega), toUInt16_toNat i1.length (by omega), toUInt16_toNat v2.length (by omega), toUInt16_toNat e2.length (by omega), toUInt16_toNat i2.length (by omega)]
+  rw [if_pos h]
 
 theorem readFromOffset_model (inflate : Inflate) (m : ModelMeta) (s : ModelSections)
     (hwf : modelWf s = true) (hd : ∀ b ∈ s.all, Deflated inflate b) (pre suf : Bytes)
@@ -703,37 +702,42 @@ theorem readFromOffset_model (inflate : Inflate) (m : ModelMeta) (s : ModelSecti
   simp only [readFromOffset, hfi, readModelFile, htot, hbytes, decodeU16s_sizeTable, hs]
   generalize hB : pre.length + (modelHeader m s).length = base at hstart ⊢
   clear hfi hbytes hs hdrop hW hhl hsz hpad htot
-  obtain ⟨st, rt, v0, i0, v1, i1, v2, i2⟩ := s
+  obtain ⟨st, rt, v0, e0, i0, v1, e1, i1, v2, e2, i2⟩ := s
   simp only [ModelSections.all] at hbs hd hcount hbound hcon hstart
   simp only [List.length_append, encodeBlocks_append, contents_append] at hcount hbound hcon
   simp only [encodeBlocks_append, List.append_assoc] at hstart
-  have hsizes : sizesOf (ModelSections.all ⟨st, rt, v0, i0, v1, i1, v2, i2⟩) =
-      sizesOf st ++ (sizesOf rt ++ (sizesOf v0 ++ (sizesOf i0 ++ (sizesOf v1 ++ (sizesOf i1 ++
-        (sizesOf v2 ++ (sizesOf i2 ++ []))))))) := by
+  have hsizes : sizesOf (ModelSections.all ⟨st, rt, v0, e0, i0, v1, e1, i1, v2, e2, i2⟩) =
+      sizesOf st ++ (sizesOf rt ++ (sizesOf v0 ++ (sizesOf e0 ++ (sizesOf i0 ++ (sizesOf v1 ++ (sizesOf e1 ++ (sizesOf i1 ++ (sizesOf v2 ++ (sizesOf e2 ++ (sizesOf i2 ++ [])))))))))) := by
     simp only [ModelSections.all, sizesOf_append, List.append_assoc, List.append_nil]
   rw [hsizes]
-  -- membership
   have mst : ∀ b ∈ st, b.wf = true ∧ Deflated inflate b := fun b h =>
     ⟨(hbs b (by simp [h])).1, hd b (by simp [h])⟩
   have mrt : ∀ b ∈ rt, b.wf = true ∧ Deflated inflate b := fun b h =>
     ⟨(hbs b (by simp [h])).1, hd b (by simp [h])⟩
   have mv0 : ∀ b ∈ v0, b.wf = true ∧ Deflated inflate b := fun b h =>
     ⟨(hbs b (by simp [h])).1, hd b (by simp [h])⟩
+  have me0 : ∀ b ∈ e0, b.wf = true ∧ Deflated inflate b := fun b h =>
+    ⟨(hbs b (by simp [h])).1, hd b (by simp [h])⟩
   have mi0 : ∀ b ∈ i0, b.wf = true ∧ Deflated inflate b := fun b h =>
     ⟨(hbs b (by simp [h])).1, hd b (by simp [h])⟩
   have mv1 : ∀ b ∈ v1, b.wf = true ∧ Deflated inflate b := fun b h =>
+    ⟨(hbs b (by simp [h])).1, hd b (by simp [h])⟩
+  have me1 : ∀ b ∈ e1, b.wf = true ∧ Deflated inflate b := fun b h =>
     ⟨(hbs b (by simp [h])).1, hd b (by simp [h])⟩
   have mi1 : ∀ b ∈ i1, b.wf = true ∧ Deflated inflate b := fun b h =>
     ⟨(hbs b (by simp [h])).1, hd b (by simp [h])⟩
   have mv2 : ∀ b ∈ v2, b.wf = true ∧ Deflated inflate b := fun b h =>
     ⟨(hbs b (by simp [h])).1, hd b (by simp [h])⟩
+  have me2 : ∀ b ∈ e2, b.wf = true ∧ Deflated inflate b := fun b h =>
+    ⟨(hbs b (by simp [h])).1, hd b (by simp [h])⟩
   have mi2 : ∀ b ∈ i2, b.wf = true ∧ Deflated inflate b := fun b h =>
     ⟨(hbs b (by simp [h])).1, hd b (by simp [h])⟩
   have nv0 : ∀ b ∈ v0, b.data ≠ [] := fun b h => (hbs b (by simp [h])).2
+  have ne0 : ∀ b ∈ e0, b.data ≠ [] := fun b h => (hbs b (by simp [h])).2
   have ni0 : ∀ b ∈ i0, b.data ≠ [] := fun b h => (hbs b (by simp [h])).2
   have nv1 : ∀ b ∈ v1, b.data ≠ [] := fun b h => (hbs b (by simp [h])).2
+  have ne1 : ∀ b ∈ e1, b.data ≠ [] := fun b h => (hbs b (by simp [h])).2
   have ni1 : ∀ b ∈ i1, b.data ≠ [] := fun b h => (hbs b (by simp [h])).2
-  -- where the sections start
   have d0 : whole.drop (base + 0) = encodeBlocks st ++ _ := hstart
   have d1 := drop_add_of_drop d0
   rw [Nat.add_assoc] at d1
@@ -749,74 +753,76 @@ theorem readFromOffset_model (inflate : Inflate) (m : ModelMeta) (s : ModelSecti
   rw [Nat.add_assoc] at d6
   have d7 := drop_add_of_drop d6
   rw [Nat.add_assoc] at d7
-  simp only [Nat.zero_add] at d1 d2 d3 d4 d5 d6 d7
+  have d8 := drop_add_of_drop d7
+  rw [Nat.add_assoc] at d8
+  have d9 := drop_add_of_drop d8
+  rw [Nat.add_assoc] at d9
+  have d10 := drop_add_of_drop d9
+  rw [Nat.add_assoc] at d10
+  simp only [Nat.zero_add] at d1 d2 d3 d4 d5 d6 d7 d8 d9 d10
   have z32 : (0 : Nat).toUInt32.toNat = 0 := rfl
-  -- stack and runtime
-  have r0 := readRun_ok inflate whole st (base + 0) (sizesOf rt ++ (sizesOf v0 ++ (sizesOf i0 ++
-        (sizesOf v1 ++ (sizesOf i1 ++ (sizesOf v2 ++ (sizesOf i2 ++ []))))))) _ mst d0
-  have r1 := readRun_ok inflate whole rt _ (sizesOf v0 ++ (sizesOf i0 ++ (sizesOf v1 ++ (sizesOf i1 ++
-        (sizesOf v2 ++ (sizesOf i2 ++ [])))))) _ mrt d1
+  have r0 := readRun_ok inflate whole st (base + 0) (sizesOf rt ++ (sizesOf v0 ++ (sizesOf e0 ++ (sizesOf i0 ++ (sizesOf v1 ++ (sizesOf e1 ++ (sizesOf i1 ++ (sizesOf v2 ++ (sizesOf e2 ++ (sizesOf i2 ++ [])))))))))) _ mst d0
+  have r1 := readRun_ok inflate whole rt _ (sizesOf v0 ++ (sizesOf e0 ++ (sizesOf i0 ++ (sizesOf v1 ++ (sizesOf e1 ++ (sizesOf i1 ++ (sizesOf v2 ++ (sizesOf e2 ++ (sizesOf i2 ++ []))))))))) _ mrt d1
   simp only [mbOf, encLen, z32, toUInt16_toNat st.length (by omega), toUInt16_toNat rt.length (by omega),
     toUInt32_toNat (encodeBlocks st).length (by omega), r0, r1]
-  -- the six vertex / index runs
-  have q0 := processModelData_ok inflate whole base none v0
+  have q2 := processModelData_ok inflate whole base none v0
     ((encodeBlocks st).length + (encodeBlocks rt).length) (contents st ++ contents rt)
-    (sizesOf i0 ++ (sizesOf v1 ++ (sizesOf i1 ++ (sizesOf v2 ++ (sizesOf i2 ++ []))))) _ mv0 (by omega)
-    (by omega) d2 (fun _ p h => by cases h)
-  have q1 := processModelData_ok inflate whole base none i0
-    ((encodeBlocks st).length + (encodeBlocks rt).length + (encodeBlocks v0).length)
-    (contents st ++ contents rt ++ contents v0)
-    (sizesOf v1 ++ (sizesOf i1 ++ (sizesOf v2 ++ (sizesOf i2 ++ [])))) _ mi0 (by omega)
-    (by omega) d3 (fun _ p h => by cases h)
-  have q2 := processModelData_ok inflate whole base
-    (some (secOffset v0 (0x44 + (contents st ++ contents rt).length)).toUInt32) v1
-    ((encodeBlocks st).length + (encodeBlocks rt).length + (encodeBlocks v0).length + (encodeBlocks i0).length)
-    (contents st ++ contents rt ++ contents v0 ++ contents i0)
-    (sizesOf i1 ++ (sizesOf v2 ++ (sizesOf i2 ++ []))) _ mv1 (by omega)
-    (by omega) d4 (fun _ p h => by
+    (sizesOf e0 ++ (sizesOf i0 ++ (sizesOf v1 ++ (sizesOf e1 ++ (sizesOf i1 ++ (sizesOf v2 ++ (sizesOf e2 ++ (sizesOf i2 ++ [])))))))) _ mv0 (by omega) (by omega) d2 (fun _ p h => by cases h)
+  have q3 := processModelData_ok inflate whole base none e0
+    ((encodeBlocks st).length + (encodeBlocks rt).length + (encodeBlocks v0).length) (contents st ++ contents rt ++ contents v0)
+    (sizesOf i0 ++ (sizesOf v1 ++ (sizesOf e1 ++ (sizesOf i1 ++ (sizesOf v2 ++ (sizesOf e2 ++ (sizesOf i2 ++ []))))))) _ me0 (by omega) (by omega) d3 (fun _ p h => by cases h)
+  have q4 := processModelData_ok inflate whole base none i0
+    ((encodeBlocks st).length + (encodeBlocks rt).length + (encodeBlocks v0).length + (encodeBlocks e0).length) (contents st ++ contents rt ++ contents v0 ++ contents e0)
+    (sizesOf v1 ++ (sizesOf e1 ++ (sizesOf i1 ++ (sizesOf v2 ++ (sizesOf e2 ++ (sizesOf i2 ++ [])))))) _ mi0 (by omega) (by omega) d4 (fun _ p h => by cases h)
+  have q5 := processModelData_ok inflate whole base (some (secOffset v0 (0x44 + (contents st ++ contents rt).length)).toUInt32) v1
+    ((encodeBlocks st).length + (encodeBlocks rt).length + (encodeBlocks v0).length + (encodeBlocks e0).length + (encodeBlocks i0).length) (contents st ++ contents rt ++ contents v0 ++ contents e0 ++ contents i0)
+    (sizesOf e1 ++ (sizesOf i1 ++ (sizesOf v2 ++ (sizesOf e2 ++ (sizesOf i2 ++ []))))) _ mv1 (by omega) (by omega) d5 (fun _ p h => by
       cases h
       apply offset_ne v0 nv0
       · simp only [List.length_append]; omega
       · simp only [List.length_append, conLen]; omega
       · omega)
-  have q3 := processModelData_ok inflate whole base
-    (some (secOffset i0 (0x44 + (contents st ++ contents rt ++ contents v0).length)).toUInt32) i1
-    ((encodeBlocks st).length + (encodeBlocks rt).length + (encodeBlocks v0).length + (encodeBlocks i0).length +
-      (encodeBlocks v1).length)
-    (contents st ++ contents rt ++ contents v0 ++ contents i0 ++ contents v1)
-    (sizesOf v2 ++ (sizesOf i2 ++ [])) _ mi1 (by omega)
-    (by omega) d5 (fun _ p h => by
+  have q6 := processModelData_ok inflate whole base (some (secOffset e0 (0x44 + (contents st ++ contents rt ++ contents v0).length)).toUInt32) e1
+    ((encodeBlocks st).length + (encodeBlocks rt).length + (encodeBlocks v0).length + (encodeBlocks e0).length + (encodeBlocks i0).length + (encodeBlocks v1).length) (contents st ++ contents rt ++ contents v0 ++ contents e0 ++ contents i0 ++ contents v1)
+    (sizesOf i1 ++ (sizesOf v2 ++ (sizesOf e2 ++ (sizesOf i2 ++ [])))) _ me1 (by omega) (by omega) d6 (fun _ p h => by
+      cases h
+      apply offset_ne e0 ne0
+      · simp only [List.length_append]; omega
+      · simp only [List.length_append, conLen]; omega
+      · omega)
+  have q7 := processModelData_ok inflate whole base (some (secOffset i0 (0x44 + (contents st ++ contents rt ++ contents v0 ++ contents e0).length)).toUInt32) i1
+    ((encodeBlocks st).length + (encodeBlocks rt).length + (encodeBlocks v0).length + (encodeBlocks e0).length + (encodeBlocks i0).length + (encodeBlocks v1).length + (encodeBlocks e1).length) (contents st ++ contents rt ++ contents v0 ++ contents e0 ++ contents i0 ++ contents v1 ++ contents e1)
+    (sizesOf v2 ++ (sizesOf e2 ++ (sizesOf i2 ++ []))) _ mi1 (by omega) (by omega) d7 (fun _ p h => by
       cases h
       apply offset_ne i0 ni0
       · simp only [List.length_append]; omega
       · simp only [List.length_append, conLen]; omega
       · omega)
-  have q4 := processModelData_ok inflate whole base
-    (some (secOffset v1 (0x44 + (contents st ++ contents rt ++ contents v0 ++ contents i0).length)).toUInt32) v2
-    ((encodeBlocks st).length + (encodeBlocks rt).length + (encodeBlocks v0).length + (encodeBlocks i0).length +
-      (encodeBlocks v1).length + (encodeBlocks i1).length)
-    (contents st ++ contents rt ++ contents v0 ++ contents i0 ++ contents v1 ++ contents i1)
-    (sizesOf i2 ++ []) _ mv2 (by omega)
-    (by omega) d6 (fun _ p h => by
+  have q8 := processModelData_ok inflate whole base (some (secOffset v1 (0x44 + (contents st ++ contents rt ++ contents v0 ++ contents e0 ++ contents i0).length)).toUInt32) v2
+    ((encodeBlocks st).length + (encodeBlocks rt).length + (encodeBlocks v0).length + (encodeBlocks e0).length + (encodeBlocks i0).length + (encodeBlocks v1).length + (encodeBlocks e1).length + (encodeBlocks i1).length) (contents st ++ contents rt ++ contents v0 ++ contents e0 ++ contents i0 ++ contents v1 ++ contents e1 ++ contents i1)
+    (sizesOf e2 ++ (sizesOf i2 ++ [])) _ mv2 (by omega) (by omega) d8 (fun _ p h => by
       cases h
       apply offset_ne v1 nv1
       · simp only [List.length_append]; omega
       · simp only [List.length_append, conLen]; omega
       · omega)
-  have q5 := processModelData_ok inflate whole base
-    (some (secOffset i1 (0x44 + (contents st ++ contents rt ++ contents v0 ++ contents i0 ++ contents v1).length)).toUInt32) i2
-    ((encodeBlocks st).length + (encodeBlocks rt).length + (encodeBlocks v0).length + (encodeBlocks i0).length +
-      (encodeBlocks v1).length + (encodeBlocks i1).length + (encodeBlocks v2).length)
-    (contents st ++ contents rt ++ contents v0 ++ contents i0 ++ contents v1 ++ contents i1 ++ contents v2)
-    [] _ mi2 (by omega)
-    (by omega) d7 (fun _ p h => by
+  have q9 := processModelData_ok inflate whole base (some (secOffset e1 (0x44 + (contents st ++ contents rt ++ contents v0 ++ contents e0 ++ contents i0 ++ contents v1).length)).toUInt32) e2
+    ((encodeBlocks st).length + (encodeBlocks rt).length + (encodeBlocks v0).length + (encodeBlocks e0).length + (encodeBlocks i0).length + (encodeBlocks v1).length + (encodeBlocks e1).length + (encodeBlocks i1).length + (encodeBlocks v2).length) (contents st ++ contents rt ++ contents v0 ++ contents e0 ++ contents i0 ++ contents v1 ++ contents e1 ++ contents i1 ++ contents v2)
+    (sizesOf i2 ++ []) _ me2 (by omega) (by omega) d9 (fun _ p h => by
+      cases h
+      apply offset_ne e1 ne1
+      · simp only [List.length_append]; omega
+      · simp only [List.length_append, conLen]; omega
+      · omega)
+  have q10 := processModelData_ok inflate whole base (some (secOffset i1 (0x44 + (contents st ++ contents rt ++ contents v0 ++ contents e0 ++ contents i0 ++ contents v1 ++ contents e1).length)).toUInt32) i2
+    ((encodeBlocks st).length + (encodeBlocks rt).length + (encodeBlocks v0).length + (encodeBlocks e0).length + (encodeBlocks i0).length + (encodeBlocks v1).length + (encodeBlocks e1).length + (encodeBlocks i1).length + (encodeBlocks v2).length + (encodeBlocks e2).length) (contents st ++ contents rt ++ contents v0 ++ contents e0 ++ contents i0 ++ contents v1 ++ contents e1 ++ contents i1 ++ contents v2 ++ contents e2)
+    ([]) _ mi2 (by omega) (by omega) d10 (fun _ p h => by
       cases h
       apply offset_ne i1 ni1
       · simp only [List.length_append]; omega
       · simp only [List.length_append, conLen]; omega
       · omega)
-  simp only [q0, q1, q2, q3, q4, q5]
-  -- the header describes the reassembled file
+  simp only [q2, q3, q4, q5, q6, q7, q8, q9, q10]
   simp only [unpackedModel]
   rw [← writeHeader_eq]
   simp only [mdlHeaderOf, ModelSections.all, contents_append, conLen, List.length_append,
